@@ -32,10 +32,12 @@ import (
 	"encoding/json"
 	"fmt"
 	"os"
+	"path/filepath"
 	"reflect"
 	"runtime"
 	"runtime/debug"
 	"runtime/pprof"
+	"sort"
 	"strconv"
 	"strings"
 	"sync"
@@ -1196,6 +1198,25 @@ func main() {
 		ck.startWorkers(fl.Drv, 6)
 	}
 
+	// 0. corpus: minimised past findings, run first
+	if vd := os.Getenv("VERIF_DIR"); vd != "" {
+		files, _ := filepath.Glob(filepath.Join(vd, "corpus", "C09", "*.json"))
+		sort.Strings(files)
+		for _, f := range files {
+			b, err := os.ReadFile(f)
+			if err != nil {
+				continue
+			}
+			var rp struct {
+				Case Case `json:"case"`
+			}
+			if json.Unmarshal(b, &rp) != nil || len(rp.Case.Ops) == 0 {
+				res.Note("corpus file unreadable: " + f)
+				continue
+			}
+			report(res, ck, runCase(rp.Case, nil))
+		}
+	}
 	// 1. Close / cancel landing between a handler and the select (every combination, several configurations)
 	for rep := 0; rep < 6*mult; rep++ {
 		for _, viaTimer := range []bool{false, true} {
